@@ -43,9 +43,11 @@ EngOfCls(c) == CASE c = "EADeme" -> "SEA" [] c = "DEDeme" -> "DE" [] c = "SHADED
 
 SnapIds(s)   == {s.demes[i].id : i \in DOMAIN s.demes}
 SnapRec(s, d) == s.demes[CHOOSE i \in DOMAIN s.demes : s.demes[i].id = d]
-BatchCalls(B, d) == FoldSeq(LAMBDA b, acc : IF b[1] = d THEN acc + Len(b[3]) ELSE acc, 0, B)
+\* a batch is <<deme id, level, calls, phase>>; phase "init": the deme was under construction, "run": its metaepoch
+BatchCalls(B, d) == FoldSeq(LAMBDA b, acc : IF b[1] = d /\ b[4] = "run" THEN acc + Len(b[3]) ELSE acc, 0, B)
+InitCalls(B, d)  == FoldSeq(LAMBDA b, acc : IF b[1] = d /\ b[4] = "init" THEN acc + Len(b[3]) ELSE acc, 0, B)
 BatchDemes(B)    == {B[i][1] : i \in DOMAIN B}
-BatchGids(B, d)  == UNION {{B[i][3][j][1] : j \in DOMAIN B[i][3]} : i \in {k \in DOMAIN B : B[k][1] = d}}
+BatchGids(B, d)  == UNION {{B[i][3][j][1] : j \in DOMAIN B[i][3]} : i \in {k \in DOMAIN B : B[k][1] = d /\ B[k][4] = "run"}}
 AllCalls(B)      == UNION {{B[i][3][j] : j \in DOMAIN B[i][3]} : i \in DOMAIN B}
 
 CfgOf(c) == [name |-> c.name, nlevels |-> c.nlevels,
@@ -73,7 +75,7 @@ Advance(s, B, target, errs) ==
 
 RECURSIVE InitAll(_, _)
 InitAll(s, B) == IF s.pendingInit = <<>> THEN s
-                 ELSE LET c == Head(s.pendingInit) IN InitAll(DoChildInit(s, c, BatchCalls(B, c)), B)
+                 ELSE LET c == Head(s.pendingInit) IN InitAll(DoChildInit(s, c, InitCalls(B, c)), B)
 
 \* control position forced to the observation point when the model could not get there by itself
 Force(s, e) ==
@@ -94,7 +96,17 @@ Force(s, e) ==
       [] e.e \in {"end", "abort"} -> s
       [] OTHER -> s
 
-Pre(s, e) ==
+\* A run that goes on without asking the global condition at the loop head (tree.py:128) is accepted as long as
+\* no shipped condition holds at that boundary: "returns at the first metaepoch boundary where it does [hold]".
+ImplicitLoopHead(s, e) ==
+    IF s.pc \in {"loop", "sprout"} /\ e.e \in {"gsc", "lsc"} /\ (e.e = "lsc" \/ e.by # "run")
+    THEN LET s0 == IF s.pc = "sprout" THEN [s EXCEPT !.pc = "loop"] ELSE s
+             s1 == InitAll(s0, e.b)
+         IN R(DoLoopCheck(s1, FALSE),
+              IF GscModelled(s1) /\ GscVal(s1) THEN {"C05_ReturnsAtFirstBoundary"} ELSE {})
+    ELSE R(s, {})
+
+PreAt(s, e) ==
     CASE e.e = "gsc" /\ e.by = "deme" ->
            LET a == Advance(s, e.b, e.d, {})
                s1 == a.st
@@ -119,13 +131,17 @@ Pre(s, e) ==
            IN IF EnLoopCheck(s1) THEN R(s1, {}) ELSE R(Force(s1, e), {"Desync"})
       [] e.e = "sprout" ->
            IF EnSprout(s) THEN R(s, {}) ELSE R(Force(s, e), {"Desync"})
-      [] e.e = "end" ->
-           R(s, IF s.pc = "done" THEN {} ELSE {"C05_DoneImpliesGsc"})
+      [] e.e = "end" ->     \* run() returned: the global condition must have been seen true at a metaepoch boundary
+           R(s, IF s.pc = "done" \/ (s.pc = "loop" /\ s.gscSeen /\ s.pendingInit = <<>>) THEN {} ELSE {"C05_DoneImpliesGsc"})
       [] e.e = "start" -> R(InitAll(s, e.b), {})
       [] e.e \in {"report", "dump"} ->      \* probes at the loop head (before the loop-head consult)
            LET s0 == IF s.pc = "sprout" THEN [s EXCEPT !.pc = "loop"] ELSE s
            IN R(IF s0.pc \in {"init", "loop"} THEN InitAll(s0, e.b) ELSE s0, {})
       [] OTHER -> R(s, {})
+
+Pre(s, e) == LET h == ImplicitLoopHead(s, e)
+                 p == PreAt(h.st, e)
+             IN R(p.st, h.errs \cup p.errs)
 
 -----------------------------------------------------------------------------
 (* Compare: model state versus the projection of the real tree             *)
